@@ -45,10 +45,11 @@ const (
 	c13FilterNone
 	c13FilterOuterPrefix  // decides on the outer error's text
 	c13FilterNotTransient // decides on the outer error's type
+	c13FilterAlternating  // stateful: accepts on every odd call (a rate limiter, a "not shutting down" flag, ...)
 	c13Filters
 )
 
-var c13FilterNames = [...]string{"PoisonQueue (all errors)", "filter: errors.Is sentinel", "filter: nothing", "filter: outer message starts with 'while handling'", "filter: everything except the transient wrapper type"}
+var c13FilterNames = [...]string{"PoisonQueue (all errors)", "filter: errors.Is sentinel", "filter: nothing", "filter: outer message starts with 'while handling'", "filter: everything except the transient wrapper type", "filter: stateful, accepts every odd call"}
 
 func c13Result(kind int, m *message.Message) ([]*message.Message, error) {
 	outs := []*message.Message{message.NewMessage(m.UUID+">out", []byte("o"))}
@@ -100,10 +101,20 @@ func c13Body(r *Run) {
 	}
 	var mw message.HandlerMiddleware
 	var err error
+	filterCalls := 0
+	var verdicts []bool // every answer the filter gave, in order
 	if filter == c13FilterAll {
 		mw, err = middleware.PoisonQueue(poison, "poison")
 	} else {
-		mw, err = middleware.PoisonQueueWithFilter(poison, "poison", func(e error) bool { return c13Accepts(filter, e) })
+		mw, err = middleware.PoisonQueueWithFilter(poison, "poison", func(e error) bool {
+			filterCalls++
+			v := c13Accepts(filter, e)
+			if filter == c13FilterAlternating {
+				v = filterCalls%2 == 1
+			}
+			verdicts = append(verdicts, v)
+			return v
+		})
 	}
 	if err != nil {
 		r.HarnessErr = "PoisonQueue: " + err.Error()
@@ -116,11 +127,13 @@ func c13Body(r *Run) {
 		err      error
 		callsBefore int
 		subName     string
+		verdictFrom int // index into verdicts of the first answer given after this invocation of the handler
+		verdictTo   int // ... and one past the last, taken when the wrapped call returned
 	}
 	var invs []*inv
 	seen := map[string]int{}
 	handler := func(m *message.Message) ([]*message.Message, error) {
-		iv := &inv{msg: m, metaIn: copyMeta(m.Metadata), callsBefore: len(poison.Calls), subName: message.SubscriberNameFromCtx(m.Context())}
+		iv := &inv{msg: m, metaIn: copyMeta(m.Metadata), callsBefore: len(poison.Calls), subName: message.SubscriberNameFromCtx(m.Context()), verdictFrom: len(verdicts), verdictTo: -1}
 		seen[m.UUID]++
 		k := kind
 		if seen[m.UUID] > 4 {
@@ -139,6 +152,42 @@ func c13Body(r *Run) {
 	checkInv := func(iv *inv, outs []*message.Message, rerr error, wantTopic, wantHandler, wantSub string, newCalls []*PubCall) {
 		what := fmt.Sprintf("%s / %s / %s", c13ResultNames[kind], c13FilterNames[filter], iv.msg.UUID)
 		accepted := iv.err != nil && c13Accepts(filter, iv.err)
+		if filter == c13FilterAlternating && iv.err != nil {
+			// a stateful filter: what counts is what it answered for this invocation. Asked once (or consistently), that
+			// answer decides; asked several times with different answers, either reading is fine as long as the message
+			// is not lost (neither in the poison topic nor failing any more).
+			to := iv.verdictTo
+			if to < 0 {
+				to = len(verdicts)
+			}
+			vs := verdicts[iv.verdictFrom:to]
+			yes, no := 0, 0
+			for _, v := range vs {
+				if v {
+					yes++
+				} else {
+					no++
+				}
+			}
+			switch {
+			case yes > 0 && no == 0:
+				accepted = true
+			case yes == 0 && no > 0:
+				accepted = false
+			default:
+				r.Probe("filter-gave-mixed-answers-for-one-invocation")
+				inTopic := false
+				for _, c := range newCalls {
+					if c.Err == nil {
+						inTopic = true
+					}
+				}
+				if !inTopic && rerr == nil {
+					r.Fail("C13.R2", "success reported although the failed message is not in the poison topic", "%s: filter answers %v", what, vs)
+				}
+				return
+			}
+		}
 		if !accepted {
 			if len(newCalls) != 0 {
 				r.Fail("C13.R3", "a message was published to the poison topic although handling succeeded or the error is filtered out", "%s: %d poison publishes", what, len(newCalls))
@@ -235,6 +284,7 @@ func c13Body(r *Run) {
 				r.Fail("C13.R0", "the wrapped handler was not invoked exactly once", "%d", len(invs)-nInv)
 				return
 			}
+			invs[nInv].verdictTo = len(verdicts)
 			checkInv(invs[nInv], outs, rerr, "", "", "", poison.Calls[before:])
 		}
 		return
@@ -265,24 +315,53 @@ func c13Body(r *Run) {
 		outs  []*message.Message
 		err   error
 		calls []*PubCall
+		hname string
+		topic string
 	}
 	var results []*routed
-	h := rig.Router.AddHandler("the-handler", "in", sub, "out", outPub, handler)
-	h.AddMiddleware(func(next message.HandlerFunc) message.HandlerFunc {
-		// observation point outside PoisonQueue
-		pq := mw(next)
-		return func(m *message.Message) ([]*message.Message, error) {
-			before := len(poison.Calls)
-			nInv := len(invs)
-			outs, e := pq(m)
-			res := &routed{outs: outs, err: e, calls: append([]*PubCall(nil), poison.Calls[before:]...)}
-			if len(invs) == nInv+1 {
-				res.iv = invs[nInv]
+	// the observation point outside PoisonQueue. One PoisonQueue value serves every handler it is added to.
+	observe := func(hname, topic string) message.HandlerMiddleware {
+		return func(next message.HandlerFunc) message.HandlerFunc {
+			var mine *inv
+			pq := mw(func(m *message.Message) ([]*message.Message, error) {
+				o, e := next(m)
+				mine = invs[len(invs)-1]
+				return o, e
+			})
+			return func(m *message.Message) ([]*message.Message, error) {
+				before := len(poison.Calls)
+				mine = nil
+				outs, e := pq(m)
+				res := &routed{outs: outs, err: e, hname: hname, topic: topic}
+				// (with a second handler the poison publisher is shared: the calls of this invocation are those carrying its message)
+				for _, c := range poison.Calls[before:] {
+					if len(c.Snap) > 0 && c.Snap[0].UUID == m.UUID {
+						res.calls = append(res.calls, c)
+					}
+				}
+				if mine != nil {
+					res.iv = mine
+					mine.verdictTo = len(verdicts)
+				}
+				results = append(results, res)
+				return outs, e
 			}
-			results = append(results, res)
-			return outs, e
 		}
-	})
+	}
+	h := rig.Router.AddHandler("the-handler", "in", sub, "out", outPub, handler)
+	h.AddMiddleware(observe("the-handler", "in"))
+	// in half of the scripted-subscriber runs a second handler (other name, topic and subscriber) uses the same PoisonQueue
+	var script2 *ScriptedSubscriber
+	if mode == 1 && filter != c13FilterAlternating && t.Chance(1, 2) {
+		script2 = NewScriptedSubscriber(r, "sub2")
+		script2.MaxRedeliver = 4
+		for i := 0; i < 2; i++ {
+			script2.Script["in2"] = append(script2.Script["in2"], ScriptMsg{UUID: fmt.Sprintf("r2-%d", i), Payload: "payload", Metadata: map[string]string{"user-key": "user-value"}})
+		}
+		h2 := rig.Router.AddHandler("second-handler", "in2", script2, "out", outPub, handler)
+		h2.AddMiddleware(observe("second-handler", "in2"))
+		r.Probe("two-handlers-share-one-poison-queue")
+	}
 	r.Sim.AtEnd(func() {
 		for _, res := range results {
 			if res.iv == nil {
@@ -291,7 +370,7 @@ func c13Body(r *Run) {
 			}
 			// (the subscriber is named as the router's context names it: C08 checks that naming)
 			_ = subName
-			checkInv(res.iv, res.outs, res.err, "in", "the-handler", res.iv.subName, res.calls)
+			checkInv(res.iv, res.outs, res.err, res.topic, res.hname, res.iv.subName, res.calls)
 		}
 		if script != nil {
 			// R4: acked => handled successfully or present in the poison topic
